@@ -6,9 +6,30 @@ import (
 	"encoding/json"
 	"fmt"
 
+	"github.com/cloudwego/eino/compose"
+
 	gg "verif/harness/graphgen"
 	"verif/harness/lib"
 )
+
+// c01case: a graphgen case, optionally invoked with compose.WithRuntimeMaxSteps(RtMax). An Option that carries
+// only the step limit is not handed on to nested graphs (extractOption skips options without component
+// options), so it replaces the compile-time limit of the ROOT graph only.
+type c01case struct {
+	gg.Case
+	RtMax int `json:"rtmax,omitempty"`
+}
+
+// effective: the case the model and the oracle see (the root's limit replaced by the runtime one)
+func (c *c01case) effective() *gg.Case {
+	if c.RtMax <= 0 {
+		return &c.Case
+	}
+	e := gg.Case{Input: c.Input, Fails: c.Fails, Forest: make([]gg.Graph, len(c.Forest))}
+	copy(e.Forest, c.Forest)
+	e.Forest[0].Max = c.RtMax
+	return &e
+}
 
 type engine struct{}
 
@@ -19,11 +40,21 @@ func (engine) CoqHeader() string {
 func (engine) CoqCaseType() string { return "ccase" }
 
 func (engine) Generate(r *lib.Rng, tier string, i int) any {
+	c := &c01case{Case: *generate(r, tier)}
+	if r.Chance(1, 8) {
+		c.RtMax = r.Range(1, 9)
+	}
+	return c
+}
+
+func generate(r *lib.Rng, tier string) *gg.Case {
 	o := gg.Quick()
 	if tier == "thorough" {
 		o = gg.Thorough()
 	}
-	switch x := r.Intn(20); {
+	switch x := r.Intn(21); {
+	case x == 20:
+		return genFanout(r)
 	case x < 12:
 		return gg.GenPregel(r, o)
 	case x < 14:
@@ -35,7 +66,7 @@ func (engine) Generate(r *lib.Rng, tier string, i int) any {
 }
 
 func (engine) Decode(raw json.RawMessage) (any, error) {
-	var c gg.Case
+	var c c01case
 	if err := json.Unmarshal(raw, &c); err != nil {
 		return nil, err
 	}
@@ -46,15 +77,41 @@ func (engine) Decode(raw json.RawMessage) (any, error) {
 }
 
 func (engine) Run(c any) lib.Result {
-	cs := c.(*gg.Case)
-	obs := gg.Run(cs, gg.RunOpts{})
+	cc := c.(*c01case)
+	ro := gg.RunOpts{}
+	if cc.RtMax > 0 {
+		ro.CallOpts = []compose.Option{compose.WithRuntimeMaxSteps(cc.RtMax)}
+	}
+	obs := gg.Run(&cc.Case, ro)
+	cs := cc.effective()
 	res := lib.Result{Obs: obs, Tags: gg.Tags(cs, obs)}
-	if obs.Class == "compile" || obs.Class == "budget" {
-		res.Tags = append(res.Tags, "not-in-model:"+obs.Class)
+	if cc.RtMax > 0 {
+		res.Tags = append(res.Tags, "limit:runtime-option")
+	}
+	if obs.Class == "compile" {
+		// every generated / recorded case is well-formed by construction (distinct keys, declared end nodes, a
+		// Parallel/Branch stage after a single node): a graph or chain that does not compile cannot be run at all
+		res.Tags = append(res.Tags, "not-in-model:compile")
+		res.Oracle, res.Sig = "a well-formed graph/chain was rejected by Compile: "+obs.ErrMsg, "c01:compile"
+		return res
+	}
+	if obs.Class == "budget" {
+		res.Tags = append(res.Tags, "not-in-model:budget")
 		return res
 	}
 	res.CoqTerm = cs.CoqCase(obs)
-	res.Oracle, res.Sig = gg.OraclePregel(cs, obs)
+	res.Oracle, res.Sig = oraclePregel(cs, obs)
+	if res.Oracle == "" && obs.Class != "hang" && obs.Class != "panic" && cc.RtMax == 0 {
+		// overlapping runs of the same compiled graph (see concurrent.go)
+		switch {
+		case hubShape(cs):
+			res.Oracle, res.Sig = concurrentPhase(cs, 8, 150)
+			res.Tags = append(res.Tags, "concurrent:8x150")
+		case (len(obs.Log)+len(cs.Forest))%8 == 0:
+			res.Oracle, res.Sig = concurrentPhase(cs, 4, 25)
+			res.Tags = append(res.Tags, "concurrent:4x25")
+		}
+	}
 	res.Nontrivial = gg.Nontrivial(cs, obs)
 	return res
 }
